@@ -36,7 +36,8 @@ enum Sig { SNone, SInt, SCStr, SPayload, SIntCStr, SIntRef, kSigs };
 const char *sigName[] = {"<>", "<int>", "<const std::string&>", "<Payload by value>", "<int, const std::string&>", "<int&>"};
 
 using Key = std::vector<std::string>;          // concrete key: level names below the root
-const std::vector<std::string> kNames = {"a", "ab", "a.b", "a+", "b", ""};
+// colliding names: prefixes of each other, regex metacharacters as plain text, the empty name, an embedded NUL
+const std::vector<std::string> kNames = {"a", std::string("a\0b", 3), "a.b", "a+", "b", ""};
 constexpr int kMaxDepth = 3;
 
 struct PLevel {                                // one pattern level
